@@ -5,6 +5,10 @@ V = os.path.dirname(os.path.dirname(os.path.abspath(__file__)))
 ALL = ["C%02d" % i for i in range(1, 19)]
 
 CLAIMED = {
+ "C11": dict(
+   text="Machine-checked proof (Lean 4, full after fix 20818f3): C11_plain, C11_raw, C11_interp, C11_interp_raw prove for EVERY literal body made of well-formed pieces (arbitrary bytes incl. %, braces, newline, tab and multi-byte sequences; the escapes \\n \\t \\\\ \\\"; \\{ \\}; holes) that following the literal through the byte-level models of the fc scanner, ParseSInterP, the emitted Go string literal, Go's unquoting and fmt.Sprintf yields exactly the denoted text with holes filled in order (9 per-piece stage lemmas, induction over the body). Witness theorems unfixed_percent / unfixed_brace_escape show the old ParseSInterP violates it. Tied to /repo by streams against the real scanTokenAt and ParseSInterP (every byte value in each form, random/truncated bodies), by strconv.Unquote / fmt.Sprintf for the assumed Go semantics, and end to end by generated programs printing literals (real pipeline, compiled, run). Known finding D11: float holes render %f.",
+   design="§5 C11", technique="Lean 4 theorems (per-piece stage homomorphism lemmas + induction over literal bodies) + scanner/Go-semantics correspondence + compiled end-to-end programs",
+   note="Trusted: Lean kernel; assumed Go semantics of interpreted string literals (4 escapes) and Sprintf (%s, %%) — both differentially tested; UTF-8 validity of source assumed; display form of hole values is a parameter (checked end to end for int/string/bool)."),
  "C12": dict(
    text="Machine-checked proof (Lean 4, full): step_frame/history_frame prove for EVERY history of slice-package calls, every pool value, every growth policy of append and every callback that each slice value keeps the contents it had when produced, on a statement-by-statement model of all 29 exported functions over a Go-style heap (array id/offset/len/cap). The witness theorem pushLast_unfixed_violates shows the statement is false for the code before fix 20f0992. Tied to /repo on every run by regenerated facts (function inventory + aliasing-relevant statements, go/ast) and by the slice.hist correspondence (contents of all pool values, return values/panics, canonical aliasing signature) against the real package.",
    design="§5 C12", technique="Lean 4 theorem (frame invariant by induction over histories) + regenerated go/ast facts + model/implementation correspondence",
@@ -73,7 +77,7 @@ def main():
             {"name": "harness", "path": "harness/", "serves_properties": sorted(CLAIMED), "kind_free_text": "Go drivers calling the real code in-process, go/ast fact extractor"},
         ],
         "checks": checks,
-        "notes": "Fix commits in /repo: 20f0992 (slice.PushLast), a41e038 (frt.toS), 01c3b5f (frt.OpEqual). known_findings.json lists fixed and known findings.",
+        "notes": "Fix commits in /repo: 20f0992 (slice.PushLast), a41e038 (frt.toS), 01c3b5f (frt.OpEqual), 20818f3 (string literals). known_findings.json lists fixed and known findings.",
         "not_applicable": na,
     }
     json.dump(m, open(os.path.join(V, "MANIFEST.json"), "w"), indent=1)
